@@ -449,3 +449,40 @@ def generate_valid(
             k = err.split(":")[0]
             stats["dsdl_reject_reasons"][k] = stats["dsdl_reject_reasons"].get(k, 0) + 1
     raise RuntimeError("dsdlgen: no valid set in 200 attempts for %r" % (seed_labels,))
+
+
+_REF = None
+
+
+def same_layout_variant(files: typing.Dict[str, str]) -> typing.Optional[typing.Dict[str, str]]:
+    """
+    An edited copy of the inputs in which one type refers to ANOTHER composite of identical definition text instead of
+    the one it referred to: names, versions and every bit length set stay what they were, but the set of types that
+    file depends on changes (what a user does when a dependency moves). None if the set offers no such pair.
+    """
+    import re
+
+    ref_of = {}
+    for rel in files:
+        parts = rel.split("/")
+        fn = parts[-1].split(".")
+        if fn[0].isdigit():
+            fn = fn[1:]
+        ref_of[".".join(parts[:-1] + [fn[0]]) + ".%s.%s" % (fn[1], fn[2])] = rel
+    pat = re.compile(r"(?<![\w.])(" + "|".join(re.escape(k) for k in sorted(ref_of, key=len, reverse=True)) + r")(?![\w.])") if ref_of else None
+    if pat is None:
+        return None
+    for rel in sorted(files):
+        refs = []
+        for m in pat.finditer(files[rel]):
+            if m.group(1) not in refs and ref_of[m.group(1)] != rel:
+                refs.append(m.group(1))
+        for i in range(len(refs)):
+            for j in range(len(refs)):
+                a, b = refs[i], refs[j]
+                if i != j and files[ref_of[a]].strip() == files[ref_of[b]].strip():
+                    out = dict(files)
+                    out[rel] = pat.sub(lambda m, a=a, b=b: a if m.group(1) == b else m.group(1), files[rel])
+                    if out[rel] != files[rel]:
+                        return out
+    return None
